@@ -211,6 +211,9 @@ void Simplex::setFrequencies(const std::vector<double>& probas)
   if  (dim_ == 0)
     return;
 
+  if (probas.size() != dim_)
+    throw DimensionException("Simplex::setFrequencies. Wrong number of probabilities.", probas.size(), dim_);
+
   double sum = VectorTools::sum(probas);
   if (fabs(1. - sum) > NumConstants::SMALL())
     throw Exception("Simplex::setFrequencies. Probabilities must equal 1 (sum =" + TextTools::toString(sum) + ").");
